@@ -257,6 +257,8 @@ def build(desc):
     if desc.get("entry_point"):
         m.entry_point = blocks[desc["entry_point"]]
 
+    for a, b in desc.get("symbol_forwarding", []):
+        m.aux_data["symbolForwarding"].data[syms[a]] = syms[b]
     _extra_aux(w, model, desc, blocks, syms)
     w.blocks = blocks
     w.syms = syms
